@@ -12,6 +12,10 @@ CONSTANTS
   PhaseMaps <- Ph1
   ReKVals <- NoReK
   MaxHist = 0
+  NameMap <- NmId
+  PForms <- PfPlain
+  Containers <- CtList
+  OvKVals <- Ov3
   Configs <- CfgFewBoth
   Comp <- CompDef
 INVARIANT FreeVsInlinedAgree
@@ -25,5 +29,6 @@ INVARIANT OTypeOK
 INVARIANT PolyAgreesWithFold
 INVARIANT FeedExact
 INVARIANT CurrentConstantRules
+INVARIANT StoichDecomposes
 INVARIANT EmitBuild
 CHECK_DEADLOCK FALSE
